@@ -772,4 +772,15 @@ theorem applySSA_spec_set (cur : Option KObj) (prev : Option KObj) (p : KObj) (p
         rw [ssaMergeF_set k v pf _ hnd hk, ssaMergeV_atom _ v hv]
 
 
+theorem getD_addAnn (cur m : Option (AL String)) (k : String) (hnd : NoDup (m.getD [])) :
+    alookup k ((addAnn cur m).getD []) = (alookup k (m.getD [])).or (alookup k (cur.getD [])) := by
+  cases cur with
+  | none =>
+    simp only [addAnn, Option.getD_none]
+    cases alookup k (m.getD []) <;> simp
+  | some a =>
+    simp only [addAnn, Option.getD_some]
+    exact alookup_addAll k a _ hnd
+
+
 end Xp.C07
